@@ -172,7 +172,8 @@ def _removal(report, name, method, what, with_sid):
         reason = Sym('reason', 'types::DisconnectReason')
         if with_sid:
             sid = z3.BitVec('sid_arg', 64)
-            args = [selfp, pid, sid, reason]
+            # (peer id, stable id, reason) positionally, or bundled in a private key struct
+            args = e2.bind_args(fn, 'crates/anemo/src/network/connection_manager.rs', [selfp], [(r'PeerId', pid), (r'^(usize|u64)$', sid), (r'DisconnectReason', reason)])
         else:
             p.mem[('H', 'parg', 'PeerId')] = pid
             args = [selfp, Ptr(('H', 'parg', 'PeerId')), reason]
@@ -283,7 +284,7 @@ def ob_wrappers(report):
                 if len(ent) != 1:
                     return violation(ob, exs, f'ActivePeers::{meth} does not delegate exactly once to ActivePeersInner::{inner_meth}', f'wrapper-{meth}-delegate', {'seq': seq}, total)
                 # arguments are passed through unchanged (positional after self)
-                a_in = [vname(ex.deref(r.path, a)) if isinstance(a, Ptr) else vname(a) for a in ent[0].args[1:]]
+                a_in = [vname(ex.deref(r.path, a)) if isinstance(a, Ptr) else vname(a) for a in e2.flatten_args(ent[0].args[1:], keep=('Connection',))]      # a parameter bundle counts as its fields
                 want = [f'in{a}' + ('.*' if ex.prog and fn.decl[a].startswith('&') else '') for a in fn.args[1:]]
                 if a_in != want:
                     return violation(ob, exs, f'ActivePeers::{meth} passes {a_in} instead of its own arguments {want}', f'wrapper-{meth}-args', {'seq': seq}, total)
@@ -337,7 +338,35 @@ def ob_listing_complete(report):
                             walk(f_, d + 1)
                 walk(r.ret)
                 if not colls:
-                    return ob.done([ex], 'inconclusive', f'ActivePeersInner::{meth} does not build its listing with an iterator pipeline over the connection map ({vrepr(r.ret)[:60]})', paths=total)
+                    # an explicit loop: `for k in self.connections.keys() { v.push(*k) }` - every element the traversal yields must be pushed
+                    vecs = []
+
+                    def walk2(v, d=0):
+                        if d > 4:
+                            return
+                        if isinstance(v, Sym) and isinstance(v.get_ov('items'), Agg):
+                            vecs.append(v.get_ov('items'))
+                        if isinstance(v, Agg):
+                            for f_ in v.fields:
+                                walk2(f_, d + 1)
+                    walk2(r.ret)
+                    somes = [e for e in r.events if e.kind == 'next' and e.name == 'Some' and len(e.args) > 2 and IT.is_aiter(e.args[2])]
+                    nones = [e for e in r.events if e.kind == 'next' and e.name == 'None' and e.args and IT.is_aiter(e.args[0])]
+                    if len(vecs) != 1 or not nones:
+                        return ob.done([ex], 'inconclusive', f'ActivePeersInner::{meth} does not build its listing with an iterator pipeline or a push loop over the connection map ({vrepr(r.ret)[:60]})', paths=total)
+                    for it in [e.args[2] for e in somes] + [e.args[0] for e in nones]:
+                        src, mode, stages, _ = IT.parts(it)
+                        drop = [st.variant for st in stages if st.variant in ('filter', 'filter_map', 'take', 'skip', 'take_while', 'skip_while', 'step_by', 'flat_map')]
+                        if not vname(src).startswith(f'&inner.{cf}') and vname(src) != f'inner.{cf}':
+                            return ob.done([ex], 'inconclusive', f'ActivePeersInner::{meth} loops over {vrepr(src)[:60]}, not the connection map', paths=total)
+                        if mode not in ('keys', 'iter', 'into_keys', 'iter_mut') or drop:
+                            return violation(ob, [ex], f'ActivePeersInner::{meth} does not list every registered peer: its loop runs over {mode}() through {[st.variant for st in stages]}',
+                                             f'listing-filtered:{meth}', path_summary(r), total)
+                    if len(vecs[0].fields) != len(somes):
+                        return violation(ob, [ex], f'ActivePeersInner::{meth}: the loop over the connection map yields {len(somes)} entries but lists {len(vecs[0].fields)} of them on some path: '
+                                         'entries are left out by a criterion that changes without any NewPeer/LostPeer event', f'listing-filtered:{meth}', path_summary(r), total)
+                    checked += 1
+                    continue
                 for c in colls:
                     src, mode, stages, _ = IT.parts(c)
                     if vname(src) not in (f'&inner.{cf}', f'inner.{cf}') and not vname(src).startswith(f'&inner.{cf}'):
@@ -445,7 +474,9 @@ def ob_two_step(report):
                         q.mem[('H', 'parg' + tag, 'PeerId')] = z3.BitVec('pid(new1)', 256) if a == 'add' else z3.BitVec('p', 256)
                         args = [selfp, Ptr(('H', 'parg' + tag, 'PeerId')), Sym('reason' + tag, 'types::DisconnectReason')]
                     else:
-                        args = [selfp, z3.BitVec('pid(new1)', 256) if a == 'add' else z3.BitVec('p', 256), z3.BitVec('sidarg' + tag, 64), Sym('reason' + tag, 'types::DisconnectReason')]
+                        args = e2.bind_args(fn, 'crates/anemo/src/network/connection_manager.rs', [selfp],
+                                            [(r'PeerId', z3.BitVec('pid(new1)', 256) if a == 'add' else z3.BitVec('p', 256)), (r'^(usize|u64)$', z3.BitVec('sidarg' + tag, 64)),
+                                             (r'DisconnectReason', Sym('reason' + tag, 'types::DisconnectReason'))])
                     ex.run_fn(fn, ex.adapt_args(fn, args, q), q, 0, k, 'op' + tag)
                 ex.results = []
                 run_op(a, '1', p, lambda q, ret: run_op(b, '2', q, lambda q2, ret2: finals.append(q2)))
